@@ -87,13 +87,53 @@ struct jobviol {
 static struct jobviol g_jobviol[MAXJOBVIOL];
 static int g_njobviol;
 
-/* the operation path currently being executed, for the sanitizer death callback */
+/*
+ * The operation path currently being executed.  In a job child this lives in
+ * memory shared with the parent, so that when the real code kills the process
+ * (sanitizer abort, wild pointer) the parent still knows the exact sequence.
+ */
+struct curstate {
+	int have_header;
+	char header[8192]; /* replay file text up to and including the key lines */
+	unsigned hop, order;
+	int lenient;
+	int nseed;
+	struct op seed[MAXK];
+	int npath;
+	struct op path[MAXREPLAYOPS];
+};
+static struct curstate g_cur_static;
+static struct curstate *g_cur = &g_cur_static;
 static const struct universe *g_cur_u;
-static struct op g_cur_seed[MAXK];
-static int g_cur_nseed;
-static struct op g_cur_path[MAXREPLAYOPS];
-static int g_cur_npath;
-static int g_cur_lenient;
+#define g_cur_seed (g_cur->seed)
+#define g_cur_nseed (g_cur->nseed)
+#define g_cur_path (g_cur->path)
+#define g_cur_npath (g_cur->npath)
+#define g_cur_lenient (g_cur->lenient)
+
+static void cur_begin(const struct universe *u, int lenient)
+{
+	char note[200];
+	g_cur_u = u;
+	g_cur->nseed = 0;
+	g_cur->npath = 0;
+	g_cur->lenient = lenient;
+	g_cur->hop = u->in->hop_bits;
+	g_cur->order = u->in->order;
+	snprintf(note, sizeof(note), "universe '%s'; the process died while the real code executed the last operation below", u->label);
+	if (replay_format(g_cur->header, sizeof(g_cur->header), u, NULL, 0, NULL, 0, NULL, note, lenient) >= sizeof(g_cur->header)) {
+		die("replay header too large");
+	}
+	__sync_synchronize();
+	g_cur->have_header = 1;
+}
+
+static void cur_end(void)
+{
+	g_cur->have_header = 0;
+	__sync_synchronize();
+	g_cur_u = NULL;
+}
 
 static void report_violation(const struct universe *u, const char *vclass, const char *msg, const struct op *seed, int nseed, const struct op *path, int npath, int lenient)
 {
@@ -121,20 +161,6 @@ static void report_violation(const struct universe *u, const char *vclass, const
 	snprintf(note, sizeof(note), "universe '%s'; %s", u->label, msg);
 	replay_format(text, sizeof(text), u, seed, nseed, path, npath, vkey, note, lenient);
 	emit_violation(vkey, msg, text, nseed + npath);
-}
-
-/* called by the sanitizer runtime just before it kills the process */
-static void death_callback(void)
-{
-	static int entered;
-	char cls[96];
-	if (entered || g_cur_u == NULL || g_out_fd < 0) {
-		return;
-	}
-	entered = 1;
-	snprintf(cls, sizeof(cls), "sanitizer-abort-during-%s", g_cur_npath > 0 ? op_name(g_cur_path[g_cur_npath - 1].kind) : "seed");
-	report_violation(g_cur_u, cls, "AddressSanitizer/UBSan aborted the process while the real code executed the last operation of this sequence", g_cur_seed, g_cur_nseed, g_cur_path, g_cur_npath,
-	                 g_cur_lenient);
 }
 
 /* ------------------------------------------------------------------ set of canonical states */
@@ -332,6 +358,7 @@ static const struct utemplate UT_FIX[] = {
 	/* smaller ones where 7 keys would take minutes */
 	{ "last+first-5", 1, 2, { { 0, 0, 3, 0 }, { 1, 0, 2, 0 } } },
 	{ "prev+last-6", 2, 2, { { 0, 0, 3, 0 }, { 1, 0, 3, 0 } } },
+	{ "last+first-6", 1, 2, { { 0, 0, 3, 0 }, { 1, 0, 3, 0 } } },
 };
 #define N_UT_FIX 3 /* the first three are the standard set */
 
@@ -425,9 +452,7 @@ static void run_fixpoint(const struct c17_inst *in, const struct utemplate *t, s
 	if (c.table == NULL) {
 		die("table allocation failed");
 	}
-	g_cur_u = &u;
-	g_cur_npath = 0;
-	g_cur_lenient = 0;
+	cur_begin(&u, 0);
 	st->exhaustive = 1;
 	st->cases = 1;
 
@@ -510,7 +535,7 @@ static void run_fixpoint(const struct c17_inst *in, const struct utemplate *t, s
 	}
 	ss_free(&ss);
 out:
-	g_cur_u = NULL;
+	cur_end();
 	in->destroy(c.table);
 	universe_free(&u);
 }
@@ -599,9 +624,7 @@ static void run_sequences(const struct c17_inst *in, const struct utemplate *t, 
 			die("out of memory");
 		}
 	}
-	g_cur_u = &u;
-	g_cur_npath = 0;
-	g_cur_lenient = 0;
+	cur_begin(&u, 0);
 	st->exhaustive = 1;
 
 	for (k = u.nfrozen; k < u.nkeys; k++) {
@@ -636,7 +659,7 @@ out:
 	for (i = 0; i < depth; i++) {
 		free(d.snap[i]);
 	}
-	g_cur_u = NULL;
+	cur_end();
 	in->destroy(d.c.table);
 	universe_free(&u);
 }
@@ -724,9 +747,7 @@ static void run_leak_scenario(const struct c17_inst *in, int level, struct jobst
 	if (c.table == NULL) {
 		die("table allocation failed");
 	}
-	g_cur_u = &u;
-	g_cur_nseed = 0;
-	g_cur_lenient = level;
+	cur_begin(&u, level);
 	scan(&c, &cur);
 
 #define DO(op_) \
@@ -781,7 +802,7 @@ static void run_leak_scenario(const struct c17_inst *in, int level, struct jobst
 	}
 done:
 	st->states = 1;
-	g_cur_u = NULL;
+	cur_end();
 	in->destroy(c.table);
 	universe_free(&u);
 }
